@@ -28,6 +28,32 @@ def seg(role, key="name"):
     return ("SORT", role, key)
 
 
+def py_float_buffers(ctx: core.Ctx, py: ast.Module, F_: str):
+    """PY-DTYPE: arrays that receive computed values are allocated as float arrays of a given shape -- never as `*_like` / copies of an input,
+    whose dtype (an integer array handed to from_data) would silently truncate every stored result.  Shared with C19."""
+    ctx.rule("PY-DTYPE", "result buffers are np.zeros/eye/empty(<shape>) (float64), not *_like(input) / astype of an input dtype")
+    bad = []
+    for c in ast.walk(py):
+        if isinstance(c, ast.Call):
+            f = ast.unparse(c.func)
+            if f.split(".")[-1] in ("zeros_like", "empty_like", "ones_like", "full_like") and not any(
+                    k.arg == "dtype" and ast.unparse(k.value) in ("float", "np.float64", "numpy.float64", "'float64'") for k in c.keywords):
+                bad.append(c)
+            if f.split(".")[-1] in ("zeros", "empty", "ones", "eye", "identity", "full") and f.split(".")[0] in ("np", "numpy"):
+                for k in c.keywords:
+                    if k.arg == "dtype" and ast.unparse(k.value) not in ("float", "np.float64", "numpy.float64", "'float64'", "np.double"):
+                        bad.append(c)
+    pos = ast.parse("b = np.zeros_like(state.data)")
+    if not any(isinstance(c, ast.Call) and ast.unparse(c.func).endswith("zeros_like") for c in ast.walk(pos)):
+        ctx.error("PY-DTYPE: built-in positive example not recognised")
+    ctx.floors["PY-DTYPE"] = {"count": 1, "floor": 1, "what": "built-in positive example recognised; expected count in python.py is zero"}
+    ctx.oblige("PY-DTYPE", F_, f"{len(bad)} result buffer(s) with an inherited / non-float dtype", not bad, file=F_, func="<module>",
+               construct="dtype:" + ";".join(sorted(ast.unparse(c)[:40] for c in bad)),
+               msg="a result buffer takes its dtype from an input or is not float: " + "; ".join(f"`{ast.unparse(c)[:60]}` (line {c.lineno})" for c in bad)
+                   + " -- with an integer-typed input array every value stored into it is truncated",
+               line=bad[0].lineno if bad else None)
+
+
 def run(ctx: core.Ctx) -> int:
     for rid, t in (("LAY-KEY", "each role sorted by symbol name; arglist = [dt] + state + calibration + control"),
                    ("LAY-BUILD", "block statements follow the sorted states; calibration vector indexed by sorted calibration symbols"),
@@ -67,8 +93,12 @@ def run(ctx: core.Ctx) -> int:
     ctx.oblige("LAY-SLOT", f"{F}:Model.model", f"returns {r!r}", ok, file=F, func="Model.model", construct="return",
                msg=f"Model.model returns {r!r}; required a State over {S}")
     ctx.floor("LAY-CALL", scenarios.count(it, "LAY-CALL", "Model.model"), 1, "execute() site in Model.model")
-    ctx.floor("LAY-ZIP", scenarios.count(it, "LAY-ZIP", "Model.model"), 1, "zip in Model.model")
-    ctx.floor("LAY-SLOT", scenarios.count(it, "LAY-SLOT", "Model.model"), 1, "keyword construction of State in Model.model")
+    # however the results are carried into the State (keywords by name, or a slot-by-slot fill of a column): every output meets the slot of its name
+    raw = next((c_["result"] for c_ in it.calls if c_["callee"] == "Model.model" and "result" in c_), r)      # before the result is given its opaque name
+    by_kw = isinstance(raw, NInst) and raw.origin == "constructed" and scenarios.count(it, "LAY-SLOT", "Model.model") >= 1
+    by_fill = isinstance(raw, NInst) and raw.origin == "from_data" and raw.arr is not None and isinstance(raw.arr.rows, Layout) and raw.arr.rows.unprime() == S
+    if not (by_kw or by_fill) and ok:
+        ctx.error(f"{F}:Model.model: how the block outputs reach the returned State is not an enumerated idiom ({r!r})")
     for u in it.undecided_sites:
         ctx.note(f"undecided: {u}")
     py = it.p.modules["python"]
@@ -97,5 +127,6 @@ def run(ctx: core.Ctx) -> int:
                    + "; ".join(f"`{ast.unparse(c)[:70]}` (line {c.lineno})" for c in rewrites)
                    + " -- e.g. substituting a symbol that carries assumptions changes what Abs / sqrt / sign evaluate to",
                line=rewrites[0].lineno if rewrites else None)
+    py_float_buffers(ctx, py, F)
     return core.finish(ctx, explanation="E2 layout interpretation of python.Model + symbolic evaluation of python.BasicBlock "
                                         "against the temporaries protocol", **META)
